@@ -258,6 +258,8 @@ var (
 	vSigValid    bool
 	vClaimsValid bool
 	vKeyUsed     []byte
+	// the token's exp / nbf / iat are written as non-integer numbers (1700000000.5)
+	vFractionalDates bool
 )
 
 // vJWTParse models jwt.Parse by its contract: the key function is asked for the
@@ -266,16 +268,37 @@ var (
 // As the real parser does, a failure is reported as a *jwt.ValidationError whose
 // bit field names EVERY reason that applies (signature and any subset of the
 // claim checks), so the caller cannot conclude anything from a single bit.
-func vJWTParse(tokenString string, keyFunc jwt.Keyfunc) (*jwt.Token, error) {
+//
+// The model is attached to (*jwt.Parser).Parse (jwt.Parse is new(Parser).Parse), and honours
+// the parser's options as golang-jwt v3.2.1 implements them: ValidMethods is checked before the
+// key function is asked; SkipClaimsValidation skips the claim checks; with UseJSONNumber a
+// numeric date that is not an integer cannot be read from the json.Number and is treated as
+// absent, i.e. an expired / not-yet-valid token with fractional dates passes the claim checks.
+func vJWTParse(p *jwt.Parser, tokenString string, keyFunc jwt.Keyfunc) (*jwt.Token, error) {
 	vParsedToken = tokenString
 	tok := &jwt.Token{Raw: tokenString, Method: &vMethod{vTokenAlg}}
+	if p.ValidMethods != nil {
+		listed := false
+		for _, m := range p.ValidMethods {
+			if m == vTokenAlg {
+				listed = true
+			}
+		}
+		if !listed {
+			return tok, &jwt.ValidationError{Inner: errors.New("signing method is invalid"), Errors: jwt.ValidationErrorSignatureInvalid}
+		}
+	}
+	claimsValid := vClaimsValid
+	if p.SkipClaimsValidation || (p.UseJSONNumber && vFractionalDates) {
+		claimsValid = true
+	}
 	key, err := keyFunc(tok)
 	if err != nil {
 		return tok, &jwt.ValidationError{Inner: err, Errors: jwt.ValidationErrorUnverifiable}
 	}
 	vKeyUsed, _ = key.([]byte)
 	var bits uint32
-	if !vClaimsValid {
+	if !claimsValid {
 		// a non-empty subset of the claim failures
 		if verifBool("claims.expired") {
 			bits |= jwt.ValidationErrorExpired
@@ -317,6 +340,7 @@ func verifC06_JWT() {
 	v := NewJWTValidator(spec)
 	vTokenAlg = algs[verifChoose("tokenAlgorithm", 5)]
 	vSigValid, vClaimsValid = verifBool("signatureValidUnderConfiguredSecret"), verifBool("claimsCurrentlyValid")
+	vFractionalDates = verifBool("claims.numericDatesAreNotIntegers")
 	vHasCookie = verifBool("hasCookie")
 	vCookieValue = verifString("cookieValue", 2)
 	bearer := verifString("bearerToken", 2)
